@@ -30,8 +30,9 @@ func Balloon.Version
 // one event: it gets the current version, the version advances by one
 func Balloon.Add
   props C05
-  requires b.historyTree != nil && b.hyperTree != nil
-  modifies everything
+  requires HistLive(b.historyTree) && b.hyperTree != nil
+  may_panic
+  modifies everything, cachePuts
   ensures C05/version-advances: b.version == old(b.version) + 1
   ensures C05/snapshot-version: isnil(result_2) ==> result_0 != nil && result_0.Version == old(b.version) && result_0.EventDigest == eventDigest
 
